@@ -3,7 +3,7 @@
 WT=$1; ID=$2; OUT=/verif/seeded/$ID; mkdir -p $OUT
 cp $WT/_seeded/patch.diff $WT/_seeded/demo.py $WT/_seeded/meta.json $OUT/ 2>/dev/null
 cd $WT
-git stash -q -- vector_quantize_pytorch 2>/dev/null || git checkout -q -- vector_quantize_pytorch
+git checkout -q -- vector_quantize_pytorch
 PYTHONPATH=$WT timeout 900 /venv/bin/python -W ignore _seeded/demo.py > $OUT/demo_without.log 2>&1; echo "demo without change: exit $?" > $OUT/confirm.log
 git apply _seeded/patch.diff
 PYTHONPATH=$WT timeout 900 /venv/bin/python -W ignore _seeded/demo.py > $OUT/demo_with.log 2>&1; echo "demo with change: exit $?" >> $OUT/confirm.log
